@@ -104,8 +104,28 @@ def run_shard(desc):
     rnd = common.rng(PROP, kind, si)
     part = {"evaluations": 0, "classes": set(), "violations": [], "samples": [], "abstained": 0, "inconclusive": [], "counts": {"wl_" + kind: 0}}
     wd = common.workdir(PROP)
-    if kind in ("lit", "litrand"):
-        if kind == "lit":
+    if kind in ("lit", "litrand", "littwin"):
+        if kind == "littwin":
+            # families of literals of equal length that differ in one digit only (every position x every digit),
+            # evaluated in one process in shuffled order: each must still evaluate to itself
+            lits = []
+            for _ in range(n):
+                L = rnd.randint(1, 12)
+                base = [rnd.choice("0123456789") for _ in range(L)]
+                dot = rnd.randint(1, L - 1) if L > 2 and rnd.random() < 0.6 else None
+                fam = set()
+                for pos in range(L):
+                    for dgt in "0123456789":
+                        v = list(base)
+                        v[pos] = dgt
+                        s_ = "".join(v)
+                        if dot:
+                            s_ = s_[:dot] + "." + s_[dot:]
+                        fam.add(s_)
+                fam = sorted(fam)
+                rnd.shuffle(fam)
+                lits += fam
+        elif kind == "lit":
             lits = [l for i, l in enumerate(exhaustive_literals() + TRAPS) if i % nshards == si]
         else:
             lits = []
@@ -203,6 +223,8 @@ def run(rep, tier):
     per = 10000 if tier == "quick" else 100000
     for i in range(nl // per):
         shards.append(("litrand", i, 0, per, "release" if i % 2 else "verifdbg"))
+    for i in range(8):
+        shards.append(("littwin", i, 0, 60 if tier == "quick" else 1500, "release" if i % 2 else "verifdbg"))
     for i in range(np_ // per):
         shards.append(("pair", i, 0, per, "release" if i % 2 else "verifdbg"))
     for part in common.pmap(run_shard, shards):
